@@ -77,9 +77,19 @@ def optWritten (P : Prog) (f : FieldDef) (v : GoVal) : Bool :=
 /-- is the field emitted at all -/
 def written (P : Prog) (f : FieldDef) (v : GoVal) : Bool := !(f.req = .optional) || optWritten P f v
 
-/-- getSortedFields: (field, value) pairs sorted by field id -/
+/-- insertion into a list sorted by field id -/
+def insertField (x : FieldDef × GoVal) : List (FieldDef × GoVal) → List (FieldDef × GoVal)
+  | [] => [x]
+  | y :: r => if x.1.id ≤ y.1.id then x :: y :: r else y :: insertField x r
+
+def sortPairs : List (FieldDef × GoVal) → List (FieldDef × GoVal)
+  | [] => []
+  | x :: r => insertField x (sortPairs r)
+
+/-- getSortedFields (`sort.Slice` by `ID`; field ids are pairwise distinct, so the result does not depend on
+the sorting algorithm): (field, value) pairs sorted by field id -/
 def sortFields (defs : List FieldDef) (vals : List GoVal) : List (FieldDef × GoVal) :=
-  (defs.zip vals).mergeSort (fun a b => decide (a.1.id ≤ b.1.id))
+  sortPairs (defs.zip vals)
 
 /-! ### BLength -/
 
